@@ -42,6 +42,13 @@ def gen_decl(rng, nstreams, pairs=None, need_position=None, fill=0):
         t = rng.choice(by_usage[u]) if not (need_position and u == mdl.POSITION) else rng.choice(need_position)
         s = rng.randrange(nstreams)
         cursor[s] += rng.choice([0, 0, 0, 1, 4])
+        if els and nstreams > 1 and rng.random() < 0.2:
+            # in another stream, at exactly the in-vertex offset where the previous element of the declaration ended
+            ps, po, pt = els[-1][0], els[-1][1], els[-1][2]
+            others = [k for k in range(nstreams) if k != ps and cursor[k] <= po + mdl.TYPE_SIZE[pt]]
+            if others:
+                s = rng.choice(others)
+                cursor[s] = po + mdl.TYPE_SIZE[pt]
         if cursor[s] + mdl.TYPE_SIZE[t] > 200:
             s = min(range(nstreams), key=lambda k: cursor[k])
         els.append((s, cursor[s], t, u, 0))
